@@ -40,6 +40,8 @@ func main() {
 		selftest = flag.Bool("selftest", false, "run the mutant self-test only")
 		verbose  = flag.Bool("v", false, "print every obligation")
 		dump     = flag.String("dump", "", "debug: dump functions whose name ends with this")
+		invOut   = flag.String("inventory", "", "write the reference inventory of the analysed tree to this file and exit")
+		refPath  = flag.String("reference", "reference/inventory.json", "reference inventory (names of the reviewed tree) used to see through renames")
 	)
 	flag.Parse()
 	if t := os.Getenv("VERIF_TIER"); t == "quick" || t == "thorough" {
@@ -95,7 +97,7 @@ func main() {
 	case *propArg != "":
 		props = strings.Split(*propArg, ",")
 	default:
-		if *dump == "" {
+		if *dump == "" && *invOut == "" {
 			fatal("-property is required")
 		}
 	}
@@ -145,6 +147,20 @@ func main() {
 			return
 		}
 		fatal("%v", err)
+	}
+
+	if *invOut != "" {
+		if err := writeInventory(P, *invOut); err != nil {
+			fatal("%v", err)
+		}
+		return
+	}
+	referencePath, _ = filepath.Abs(*refPath)
+	loadRenames(P, referencePath)
+	if len(curRenames.Notes) > 0 && !*child {
+		for _, n := range curRenames.Notes {
+			fmt.Println("note: " + n)
+		}
 	}
 
 	if *dump != "" {
@@ -263,6 +279,8 @@ func main() {
 	os.Exit(exit)
 }
 
+var referencePath string
+
 func fatal(format string, a ...any) {
 	fmt.Fprintf(os.Stderr, "fwdcheck: "+format+"\n", a...)
 	os.Exit(2)
@@ -285,7 +303,7 @@ func runChildren(repo, known, prop, tier string, argsets [][]string) []childOut 
 			sem <- struct{}{}
 			defer func() { <-sem }()
 			known, _ := filepath.Abs(known)
-			args := append([]string{"-child", "-repo", repo, "-known", known, "-property", prop, "-tier", tier}, as...)
+			args := append([]string{"-child", "-repo", repo, "-known", known, "-reference", referencePath, "-property", prop, "-tier", tier}, as...)
 			cmd := exec.Command(self, args...)
 			cmd.Stderr = os.Stderr
 			b, err := cmd.Output()
